@@ -340,6 +340,7 @@ func (s *Sim) step() bool {
 	}
 	c := s.sched.intn(nc)
 	s.Steps++
+	progressTick()
 	if c < np {
 		g := s.parked[c]
 		s.parked = append(s.parked[:c], s.parked[c+1:]...)
@@ -363,6 +364,7 @@ func (s *Sim) step() bool {
 func (s *Sim) RunUntil(until time.Duration, cond func() bool) bool {
 	for {
 		synctest.Wait()
+		progressTick()
 		if s.onStep != nil {
 			s.onStep()
 		}
@@ -414,6 +416,7 @@ func (s *Sim) Run(d time.Duration) { s.RunUntil(s.Now()+d, nil) }
 func (s *Sim) Settle() {
 	for {
 		synctest.Wait()
+		progressTick()
 		if s.onStep != nil {
 			s.onStep()
 		}
